@@ -48,6 +48,11 @@ type c08Harness struct {
 	Threads   [][]cOp `json:"threads"`
 	Schedule  []int32 `json:"schedule,omitempty"`
 	Prop      string  `json:"prop,omitempty"` // property the harness is run for ("" = C08)
+	// Oracle names a built-in verdict used instead of the linearizability search:
+	// "one-session-per-id": every thread opens the session "xid" of repository r at offset 0 and writes one
+	// byte through its own handle. There is one session: exactly one of those writes lands, and the
+	// session then holds exactly that byte.
+	Oracle string `json:"oracle,omitempty"`
 }
 
 func (h c08Harness) prop() string {
@@ -151,6 +156,40 @@ func (e *c08Exec) epilogue() {
 		e.final = append(e.final, runQuery(context.Background(), e.reg, q))
 	}
 	// committed uploads: stored content must hash to its digest (covered by CheckObs on GetBlob)
+}
+
+// oneSessionPerID is the verdict of the "one-session-per-id" harnesses (see c08Harness.Oracle).
+// verdict applies the harness's oracle.
+func (e *c08Exec) verdict() (bool, string) {
+	if e.h.Oracle == "one-session-per-id" {
+		return e.oneSessionPerID()
+	}
+	return e.linearizable()
+}
+
+func (e *c08Exec) oneSessionPerID() (bool, string) {
+	okWrites, total := 0, 0
+	var texts []string
+	for _, t := range e.events {
+		for _, ev := range t {
+			if ev.Op.Op != nil && ev.Op.Op.K == "Write" {
+				total++
+				if ev.Out.OK {
+					okWrites++
+				}
+				texts = append(texts, fmt.Sprintf("T%d %s -> ok=%v %s", ev.Thread, ev.Op.String(), ev.Out.OK, ev.Out.Code))
+			}
+		}
+	}
+	w, err := e.mem.PushBlobChunkedResume(context.Background(), "r", "xid", -1, 0)
+	if err != nil {
+		return false, "the session cannot be resumed afterwards: " + err.Error()
+	}
+	size := w.Size()
+	if okWrites != 1 || size != 1 {
+		return false, fmt.Sprintf("%d of %d one-byte writes at offset 0 were accepted and the session holds %d bytes (one session: exactly one write lands): %s", okWrites, total, size, strings.Join(texts, "; "))
+	}
+	return true, ""
 }
 
 // linearizable searches for a total order respecting real-time precedence
@@ -296,6 +335,13 @@ func c08Directed(u *universe) []c08Harness {
 			{{Op: op(Op{K: "Cancel", H: 0})}},
 		}},
 	)
+	startX := func() []cOp {
+		return []cOp{{Op: op(Op{K: "Start", Repo: "r", Off: "id", Piece: "xid"})}, {Op: op(Op{K: "Write", H: 1, Piece: "z"})}}
+	}
+	hs = append(hs,
+		// the same caller-chosen upload ID opened for the first time by several threads at once
+		c08Harness{Name: "H11-first-use-of-one-upload-id-by-two-threads", Prologue: c08Seed, Oracle: "one-session-per-id", Threads: [][]cOp{startX(), startX()}},
+	)
 	// the first three again through ociclient -> ociserver (requests are served concurrently over one registry)
 	for _, h := range []c08Harness{hs[0], hs[3], hs[6]} {
 		h.Name += "/http"
@@ -318,6 +364,7 @@ func c08Alphabet(u *universe) []cOp {
 		{Op: op(Op{K: "DeleteManifest", Repo: "r", M: 0})},
 		{Op: op(Op{K: "DeleteTag", Repo: "r", Tag: "t"})},
 		{Op: op(Op{K: "Mount", From: "r", Repo: "s", B: 1})},
+		{Op: op(Op{K: "PushBlob", Repo: "s", B: 1, Piece: "alt"})}, // the mounted blob pushed again under another media type
 		{Q: qp(Query{K: "GetTag", Repo: "r", Tag: "t"})},
 		{Q: qp(Query{K: "GetBlob", Repo: "r", Dig: digB1, What: "b1"})},
 		{Q: qp(Query{K: "Tags", Repo: "r"})},
@@ -347,7 +394,7 @@ func c08Generated(u *universe, thorough bool) []c08Harness {
 			}
 		}
 		// four threads over a reduced alphabet (tag move, deletes, reads, commit, write)
-		small := []cOp{al[2], al[3], al[4], al[7], al[10], al[11]}
+		small := []cOp{al[2], al[3], al[4], al[8], al[11], al[12]}
 		for i, a := range small {
 			for j, b := range small {
 				for k, c := range small {
@@ -397,14 +444,14 @@ func c08Explore(r *vcore.Run, h c08Harness, bound int, futex bool, deadline time
 			return true // race mode: the detector is the oracle
 		}
 		e.epilogue()
-		if ok, why := e.linearizable(); !ok {
+		if ok, why := e.verdict(); !ok {
 			// a failure is believed only if the same schedule fails again (captured nondeterminism)
 			e2 := &c08Exec{h: h}
 			res2 := vsched.Run(choices, false, e2.body)
 			again := false
 			if res2.Failed == 0 {
 				e2.epilogue()
-				ok2, _ := e2.linearizable()
+				ok2, _ := e2.verdict()
 				again = !ok2
 			}
 			if !again {
@@ -621,7 +668,7 @@ func c08Replay(r *vcore.Run, sub string, raw json.RawMessage) {
 		return
 	}
 	e.epilogue()
-	if ok, why := e.linearizable(); !ok {
+	if ok, why := e.verdict(); !ok {
 		r.Violate("sched", h.prop()+"/"+c08FP(h)+"/not-linearizable", h, "linearizable", why)
 	}
 }
